@@ -170,7 +170,8 @@ class OutputBuffer:
 
     def v(self, s: str, write_now: bool = False) -> 'OutputBuffer':
         '''Prints a message if verbose output is enabled.'''
-        if self.verbose or self.debug:
+        # When JSON output is enabled, verbose messages are suppressed, since they would otherwise be written to stdout outside of the JSON document.
+        if (self.verbose or self.debug) and not self.json:
             self.info(s)
             if write_now:
                 self.write()
